@@ -15,8 +15,8 @@ import (
 	"runtime"
 	"runtime/debug"
 	"runtime/pprof"
-	"strconv"
 	"sort"
+	"strconv"
 	"strings"
 	"sync"
 	"sync/atomic"
@@ -48,11 +48,11 @@ const (
 	OpTrySend
 	OpTryRecv
 	OpPeekClock // harness: read the virtual clock without a scheduling point
-	OpSetClock // harness: set the virtual clock to arg (not a scheduling point)
-	OpSendWait // internal: sender committed and blocked in the channel
-	OpRecvWait // internal: receiver committed and blocked in the channel
-	OpTryLock  // sync.(RW)Mutex.TryLock: never blocks, reply 2 = acquired, 3 = busy
-	OpTryRLock // sync.RWMutex.TryRLock
+	OpSetClock  // harness: set the virtual clock to arg (not a scheduling point)
+	OpSendWait  // internal: sender committed and blocked in the channel
+	OpRecvWait  // internal: receiver committed and blocked in the channel
+	OpTryLock   // sync.(RW)Mutex.TryLock: never blocks, reply 2 = acquired, 3 = busy
+	OpTryRLock  // sync.RWMutex.TryRLock
 )
 
 var opNames = [...]string{"start", "done", "lock", "lockwait", "unlock", "rlock", "runlock", "send", "recv", "resume", "close", "yield", "now", "choose", "choosefree", "spawn", "step", "trysend", "tryrecv", "peekclock", "setclock", "sendwait", "recvwait", "trylock", "tryrlock"}
@@ -397,12 +397,12 @@ type AltInfo struct {
 type Options struct {
 	// Policy, if set, picks the alternative at scheduling nodes beyond the replay
 	// prefix (directed witness runs); default is alternative 0.
-	Policy func(alts []AltInfo) int
+	Policy        func(alts []AltInfo) int
 	RecordBlocked bool
-	Ticks    []int64 // clock deltas offered before a Now read
-	Clock0   int64
-	MaxSteps int
-	Trace    bool
+	Ticks         []int64 // clock deltas offered before a Now read
+	Clock0        int64
+	MaxSteps      int
+	Trace         bool
 }
 
 type lockState struct {
